@@ -41,9 +41,12 @@ FamProp(m) ==
       [] m \in {"lru", "mc-lru"} -> {"C05"}
       [] m \in {"churn", "reclaim"} -> {"C07"}
       [] m = "spec" -> {"C10"}
+      [] m \in {"pcycle", "pcyclefix"} -> {"C14"}
+      [] m = "diverge" -> {"C15"}
       [] m = "persist" -> {"C26"}
       [] OTHER -> {}
-ValueProps == (IF HasFix(P) THEN {"C12"} ELSE IF HasFb(P) THEN {"C13"} ELSE {"C01"} \cup FamProp(st.mode))
+ValueProps == (IF st.mode \in {"pcyclefix", "diverge"} THEN FamProp(st.mode)
+               ELSE IF HasFix(P) THEN {"C12"} ELSE IF HasFb(P) THEN {"C13"} ELSE {"C01"} \cup FamProp(st.mode))
               \cup (IF st.inject > 0 THEN {"C22"} ELSE {})
 CheckAll(ids, ok, detail) == IF ok THEN TRUE ELSE \A id \in ids : Viol(id, detail)
 
@@ -58,7 +61,7 @@ Fresh(p, s0) ==
         cur |-> [op |-> "none"], expect |-> "", stack |-> <<>>, fn |-> <<>>,
         structs |-> <<>>, order |-> <<>>, cap |-> p.lru_cap, handed |-> {},
         dropped |-> {}, evNow |-> {}, pend |-> {}, noC03 |-> FALSE, panics |-> 0,
-        injRev |-> 0, wpend |-> [op |-> "none"], applied |-> FALSE, injNow |-> FALSE, mode |-> "", last |-> 0, cyc |-> HasCyc(p), inject |-> 0, injected |-> FALSE, s0 |-> s0,
+        panicRev |-> 0, injRev |-> 0, wpend |-> [op |-> "none"], applied |-> FALSE, injNow |-> FALSE, mode |-> "", last |-> 0, cyc |-> HasCyc(p), inject |-> 0, injected |-> FALSE, s0 |-> s0,
         idv |-> <<>>, itn |-> <<>>, iq |-> <<<<1>>, <<1, 1>>, <<1, 1, 1>>>>, canon |-> <<>>, canonRev |-> 0, prevId |-> <<>>]
 
 K0 == [has |-> FALSE, v |-> -1, hs |-> <<>>, is |-> <<>>, s |-> 0, deps |-> <<>>, untr |-> FALSE,
@@ -223,7 +226,7 @@ OnRetMut ==
     /\ (~st.injNow) => Check("C02", st.expect = "" => ev.ok = 1, <<"write panicked", ev.kind, ev.msg>>)
     /\ (~st.injNow) => Check("C02", st.applied, <<"write finished without the writer having proceeded", st.cur>>)
     /\ st.injNow => Check("C22", ev.ok = 0 /\ ev.kind = "inject", <<"injected panic did not reach the caller of the write", ev.ok, ev.kind>>)
-    /\ ((Strict /\ evicts /\ st.applied) => LruChecks)
+    /\ ((Strict /\ ~st.cyc /\ evicts /\ st.applied) => LruChecks)
     /\ st' = [st EXCEPT !.cur = [op |-> "none"], !.order = IF st.applied THEN order2 ELSE st.order,
                         !.wpend = [op |-> "none"], !.applied = FALSE,
                         !.panics = IF ev.ok = 0 THEN st.panics + 1 ELSE st.panics]
@@ -235,17 +238,20 @@ ReadOutcome(semr, semv, isAcc) ==
         Check("C22", FALSE, <<"injected panic did not reach the caller", ev.ok, ev.kind, st.cur>>)
     ELSE IF ev.ok = 1 THEN
         /\ Check("C14", semr.err # "cycle", <<"cyclic request returned a value", ev.v>>)
-        /\ Check("C15", semr.err # "diverge", <<"diverging cycle returned a value", ev.v>>)
-        /\ (semr.err = "" /\ ~isAcc) =>
+        /\ Check("C15", semr.err \notin {"diverge", "divcycle"}, <<"diverging cycle returned a value", ev.v>>)
+        /\ (semr.err \in {"", "maycycle"} /\ ~isAcc) =>
               CheckAll(ValueProps, ev.v = semv, <<"result differs from from-scratch evaluation", ev.v, semv, st.cur>>)
         /\ (semr.err \in {"specforeign", "spectwice"}) =>
               Check("C10", FALSE, <<"specify misuse did not panic", semr.err>>)
     ELSE IF ev.ok = 0 THEN
         IF ev.kind = "inject" THEN TRUE
-        ELSE IF semr.err = "cycle" THEN Check("C14", ev.kind = "cycle", <<"wrong panic for cycle", ev.kind, ev.msg>>)
+        ELSE IF semr.err = "cycle" THEN Check("C14", ev.kind = "cycle" \/ (ev.kind = "cancel_pp" /\ st.panicRev = st.rev /\ st.cyc), <<"wrong panic for cycle", ev.kind, ev.msg>>)
+        ELSE IF semr.err = "maycycle" THEN Check("C14", ev.kind = "cycle" \/ (ev.kind = "cancel_pp" /\ st.panicRev = st.rev), <<"wrong panic for a request that re-enters a function without recovery", ev.kind, ev.msg>>)
+        ELSE IF semr.err = "divcycle" THEN Check("C15", ev.kind \in {"iterlimit", "cancel_pp", "cycle"}, <<"wrong panic for divergence", ev.kind, ev.msg>>)
         ELSE IF semr.err = "diverge" THEN Check("C15", ev.kind \in {"iterlimit", "cancel_pp"}, <<"wrong panic for divergence", ev.kind, ev.msg>>)
         ELSE IF semr.err \in {"specforeign", "spectwice"} THEN TRUE
         ELSE IF st.cyc /\ ev.kind = "cancel_pp" /\ st.injected /\ st.injRev = st.rev THEN TRUE   \* poisoned cycle memo, same revision
+        ELSE IF st.cyc /\ ev.kind = "cancel_pp" /\ st.panicRev = st.rev THEN TRUE   \* same: a panic unwound through a cycle head in this revision
         ELSE CheckAll(IF inj THEN {"C22"} ELSE ValueProps, FALSE, <<"unexpected panic", ev.kind, ev.msg, st.cur>>)
     ELSE TRUE
 
@@ -265,6 +271,7 @@ OnRetRead ==
                      !.last = IF ev.ok = 1 THEN j ELSE 0,
                      !.handed = IF ev.ok = 1 THEN st.handed \cup {<<ev.s, ev.v>>} ELSE st.handed,
                      !.noC03 = st.noC03 \/ ev.ok = 0,
+                     !.panicRev = IF ev.ok = 0 THEN st.rev ELSE st.panicRev,
                      !.panics = IF ev.ok = 0 THEN st.panics + 1 ELSE st.panics]
     ELSE IF o = "accum" THEN
         LET semr == st.sem[j] IN
